@@ -24,6 +24,16 @@ def host_raise(msg):
 def host_raise_base(msg):
     raise HostBase(msg)
 
+class BadNum:
+    """Neither a number nor printable, and saying so rudely."""
+    def __float__(self):
+        raise HostBase('no float')
+    def __str__(self):
+        raise HostBase('no str')
+    __repr__ = __str__
+
+G_BADNUM = BadNum()
+
 class Person:
     def __init__(self, name, age):
         self.name = name
